@@ -17,12 +17,15 @@ stmts = {}
 names = [t[1] for t in spec["theorems"]]
 # split output at lines that are exactly a lemma name followed by "\n     : "
 parts = re.split(r"^(\S+)\n     : ", txt, flags=re.M)
+ordered = []
 for i in range(1, len(parts), 2):
     stmts[parts[i]] = parts[i + 1].strip()
+    ordered.append(parts[i + 1].strip())
+positional = len(ordered) == len(spec["theorems"])
 body = ["(* %s *)" % spec["header"].replace("*)", "* )"), imports]
-for new, lem, comment in spec["theorems"]:
+for idx, (new, lem, comment) in enumerate(spec["theorems"]):
     key = lem.split(".")[-1]
-    st = stmts.get(lem) or stmts.get(key)
+    st = ordered[idx] if positional else (stmts.get(lem) or stmts.get(key))
     if st is None:
         print("no statement for", lem); sys.exit(1)
     st = re.sub(r"\n\nArguments.*", "", st, flags=re.S)
